@@ -157,21 +157,59 @@ func checkC14(r *core.Run) {
 		r.Bad("C14.nonblock", "sends on MessageFuture.Done", "", "expected the single and the merged delivery sites")
 	}
 	// ---- the function that stores the future and writes the package
-	var send *core.FuncInfo
+	// the method of GettyRemoting that is handed the waiter's callback and (itself or through methods of the same
+	// type it calls) both stores the future and writes the package; of several nested ones the innermost
+	reaches := func(f *core.FuncInfo) (store, write bool) {
+		seen := map[*core.FuncInfo]bool{}
+		var walk func(g *core.FuncInfo, d int)
+		walk = func(g *core.FuncInfo, d int) {
+			if g == nil || seen[g] || d < 0 {
+				return
+			}
+			seen[g] = true
+			for _, cs := range w.Calls(g) {
+				if stdMethod(cs.Static, "sync", "Map", "Store") {
+					store = true
+				}
+				if cs.Static != nil && cs.Static.Name() == "WritePkg" {
+					write = true
+				}
+				if h := w.Info(cs.Static); h != nil && core.RecvNamed(h.Obj) == gr {
+					walk(h, d-1)
+				}
+			}
+		}
+		walk(f, 2)
+		return
+	}
+	hasCallback := func(f *core.FuncInfo) bool {
+		for _, p := range paramObjs(f) {
+			if _, ok := p.Type().Underlying().(*types.Signature); ok {
+				return true
+			}
+		}
+		return false
+	}
+	var cands []*core.FuncInfo
 	for _, f := range w.SortedFuncs() {
-		if core.RecvNamed(f.Obj) != gr || w.IsTestFile(f.Decl.Pos()) {
+		if core.RecvNamed(f.Obj) != gr || w.IsTestFile(f.Decl.Pos()) || !hasCallback(f) {
 			continue
 		}
-		store, write := false, false
+		if st, wr := reaches(f); st && wr {
+			cands = append(cands, f)
+		}
+	}
+	var send *core.FuncInfo
+	for _, f := range cands {
+		inner := true
 		for _, cs := range w.Calls(f) {
-			if stdMethod(cs.Static, "sync", "Map", "Store") {
-				store = true
-			}
-			if cs.Static != nil && cs.Static.Name() == "WritePkg" {
-				write = true
+			for _, g := range cands {
+				if g != f && cs.Static == g.Obj {
+					inner = false
+				}
 			}
 		}
-		if store && write {
+		if inner {
 			send = f
 		}
 	}
@@ -179,7 +217,7 @@ func checkC14(r *core.Run) {
 		return
 	}
 	_ = send.Pkg.TypesInfo
-	storeField := keysOf(mapFieldOps(w, send, "Store", 1, map[*core.FuncInfo]bool{}))
+	storeField := keysOf(mapFieldOps(w, send, "Store", 2, map[*core.FuncInfo]bool{}))
 	var cbParam, msgParam types.Object
 	for _, p := range paramObjs(send) {
 		if _, ok := p.Type().Underlying().(*types.Signature); ok {
@@ -189,7 +227,7 @@ func checkC14(r *core.Run) {
 			msgParam = p
 		}
 	}
-	sp := &flow.Spec{W: w, Depth: 0,
+	sp := &flow.Spec{W: w, Depth: 0, Split: []flow.Tag{"fail:write"},
 		Classify: func(pkg *packages.Package, call *ast.CallExpr, callee *types.Func) []flow.Tag {
 			switch {
 			case stdMethod(callee, "sync", "Map", "Store"):
@@ -218,26 +256,30 @@ func checkC14(r *core.Run) {
 			r.Check(!cp.Before.Maybe("write"), "C14.table", key+" -> future stored before the message is written", w.Pos(cp.Call.Pos()), "store precedes write", "the message can be written before its future is stored: a fast reply would find no future and be discarded")
 			k := ""
 			if len(cp.Call.Args) == 2 {
-				k = origin(send, cp.Call.Args[0], 3)
+				k = originVia(send, cp.Fn, cp.Call.Args[0], 3)
 			}
 			r.Check(msgParam != nil && k == "param:"+msgParam.Name()+".ID", "C14.ids", key+" -> stored key is the sent message's ID", w.Pos(cp.Call.Pos()), "Store(msg.ID, ...)", "the future is stored under "+k+", not under the ID of the message being written")
 		case inSet("write", cp.Tags...):
 			r.Sites++
 			a := ""
 			if len(cp.Call.Args) > 0 {
-				a = origin(send, cp.Call.Args[0], 3)
+				a = originVia(send, cp.Fn, cp.Call.Args[0], 3)
 			}
 			r.Check(msgParam != nil && a == "param:"+msgParam.Name(), "C14.ids", key+" -> WritePkg sends the message whose ID was stored", w.Pos(cp.Call.Pos()), "WritePkg(msg)", "WritePkg sends "+a+", not the message whose ID keys the future")
 
 		}
 	}
 	for _, ex := range res.Exits {
-		if ex.St.Has("fail:write") {
+		// what holds when this exit reports a failure (an exit `return nil, helper(..)` fails when the helper does)
+		has := func(t string) bool {
+			return ex.St.Has(t) || (ex.Class == flow.ExitEither && ex.FailImpl[t])
+		}
+		if has("fail:write") {
 			r.Sites++
-			r.Check(ex.St.Has("delete") && ex.Class != flow.ExitOK, "C14.table", key+" write failure removes the future", w.Pos(ex.Pos), "deleted and reported", "a failed write leaves the pending future in the table (or is not reported)")
+			r.Check(has("delete") && ex.Class != flow.ExitOK, "C14.table", key+" write failure removes the future", w.Pos(ex.Pos), "deleted and reported", "a failed write leaves the pending future in the table (or is not reported)")
 		}
 	}
-	delField := keysOf(mapFieldOps(w, send, "Delete", 1, map[*core.FuncInfo]bool{}))
+	delField := keysOf(mapFieldOps(w, send, "Delete", 2, map[*core.FuncInfo]bool{}))
 	r.Sites++
 	r.Check(delField == storeField && storeField != "", "C14.table", key+" write failure deletes from the table it stored in", w.Pos(send.Decl.Pos()), "field "+storeField, "the store goes to '"+storeField+"' but the write-failure path deletes from '"+delField+"'")
 	// ---- the waiter
@@ -258,60 +300,39 @@ func checkC14(r *core.Run) {
 		})
 	}
 	if r.Anchor("C14.timeout", waiter, "GettyRemotingClient method waiting on MessageFuture.Done") != nil {
-		winfo := waiter.Pkg.TypesInfo
-		hasTimeout := false
-		ast.Inspect(waiter.Decl.Body, func(n ast.Node) bool {
-			cc, ok := n.(*ast.CommClause)
-			if !ok || cc.Comm == nil {
-				return true
-			}
-			es, ok := cc.Comm.(*ast.ExprStmt)
-			if !ok {
-				return true
-			}
-			ue, ok := ast.Unparen(es.X).(*ast.UnaryExpr)
-			if !ok || ue.Op != token.ARROW {
-				return true
-			}
-			c, ok := ast.Unparen(ue.X).(*ast.CallExpr)
-			if !ok {
-				return true
-			}
-			if f := core.Callee(winfo, c); f == nil || f.Name() != "After" {
-				return true
-			}
-			hasTimeout = true
-			r.Sites++
-			// returns a non-nil error
-			retErr := false
-			for _, s := range cc.Body {
-				if rs, ok := s.(*ast.ReturnStmt); ok && len(rs.Results) == 2 {
-					if c, ok := ast.Unparen(rs.Results[1]).(*ast.CallExpr); ok {
-						if f := core.Callee(winfo, c); f != nil && f.Pkg() != nil && (f.Pkg().Path() == "fmt" && f.Name() == "Errorf" || f.Pkg().Path() == "errors" && f.Name() == "New") {
-							retErr = true
-						}
+		// the timeout arm: every return reached through `<-...After(..)` carries a non-nil error and has deleted
+		// from the table the store wrote to (directly or through helpers of the package, analysed in context)
+		wsp := &flow.Spec{W: w, Depth: 0, Inline: 3, Classify: func(pkg *packages.Package, call *ast.CallExpr, callee *types.Func) []flow.Tag {
+			switch {
+			case callee != nil && callee.Name() == "After" && len(call.Args) == 1:
+				return []flow.Tag{"timeout"}
+			case stdMethod(callee, "sync", "Map", "Delete") || stdMethod(callee, "sync", "Map", "LoadAndDelete"):
+				if sel, ok := ast.Unparen(call.Fun).(*ast.SelectorExpr); ok {
+					if fs, ok := ast.Unparen(sel.X).(*ast.SelectorExpr); ok {
+						return []flow.Tag{"delete:" + fs.Sel.Name}
 					}
 				}
 			}
-			r.Check(retErr, "C14.timeout", core.ShortKey(waiter.Obj)+" timeout arm returns an error", w.Pos(cc.Pos()), "timeout surfaces as an error", "the timeout arm does not return a non-nil error: the caller would see a nil reply as success")
-			// deletes from the store field
-			dels := map[string]bool{}
-			for _, s := range cc.Body {
-				ast.Inspect(s, func(m ast.Node) bool {
-					if c, ok := m.(*ast.CallExpr); ok {
-						if g := w.Info(core.Callee(winfo, c)); g != nil {
-							for k := range mapFieldOps(w, g, "Delete", 3, map[*core.FuncInfo]bool{}) {
-								dels[k] = true
-							}
-						}
-					}
-					return true
-				})
+			return nil
+		}}
+		wres := wsp.Analyze(waiter)
+		hasTimeout := false
+		for _, ex := range wres.Exits {
+			if !ex.St.Has("arm:timeout") {
+				continue
 			}
-			r.Check(dels[storeField], "C14.table", core.ShortKey(waiter.Obj)+" timeout removes the pending future", w.Pos(cc.Pos()), "deletes from "+storeField,
-				"the timeout arm deletes from {"+keysOf(dels)+"} but the future was stored in '"+storeField+"': every timed-out request leaves its future behind and a late reply is delivered to nobody")
-			return true
-		})
+			hasTimeout = true
+			r.Sites++
+			r.Check(ex.Class == flow.ExitErr, "C14.timeout", core.ShortKey(waiter.Obj)+" timeout arm returns an error", w.Pos(ex.Pos), "timeout surfaces as an error", "the timeout arm does not return a non-nil error: the caller would see a nil reply as success")
+			var dels []string
+			for _, t := range ex.St.MustTags() {
+				if strings.HasPrefix(t, "delete:") {
+					dels = append(dels, strings.TrimPrefix(t, "delete:"))
+				}
+			}
+			r.Check(ex.St.Has("delete:"+storeField), "C14.table", core.ShortKey(waiter.Obj)+" timeout removes the pending future", w.Pos(ex.Pos), "deletes from "+storeField,
+				"the timeout arm deletes from {"+strings.Join(dels, ",")+"} but the future was stored in '"+storeField+"': every timed-out request leaves its future behind and a late reply is delivered to nobody")
+		}
 		if !hasTimeout {
 			r.Bad("C14.timeout", core.ShortKey(waiter.Obj)+" timeout arm returns an error", w.Pos(waiter.Decl.Pos()), "the waiter has no timeout arm: a lost reply parks the caller forever")
 		}
@@ -415,11 +436,9 @@ func checkC14(r *core.Run) {
 			}
 			nWaited++
 			r.Sites++
-			cl := findCompositeLit(f, cs.Call.Args[0])
-			id := ""
-			if cl != nil {
-				id = origin(f, litField(cl, "ID"), 4)
-			}
+			originFollowSingle = true // the id may come through a one-line helper around the counter
+			id, _ := litFieldOrigin(f, cs.Call.Args[0], "ID", 4)
+			originFollowSingle = false
 			counters[id] = true
 			r.Check(strings.Contains(id, ".Inc(recv=") && strings.Contains(id, ".idGenerator"), "C14.ids", core.ShortKey(f.Obj)+" : ID of a waited-for message comes from the client's atomic counter", w.Pos(cs.Call.Pos()), id, "the ID of a message sent with a waiter derives from "+id+", not from the client's atomic id counter")
 		}
@@ -508,7 +527,7 @@ func checkC14(r *core.Run) {
 			r.Fn(f)
 			key := core.ShortKey(f.Obj) + " may remove a pending future"
 			switch {
-			case waiter != nil && f == waiter:
+			case waiter != nil && (f == waiter || onlyCalledFrom(w, f, waiter, 2)):
 				r.OK("C14.table", key, w.Pos(f.Decl.Pos()), "the waiter (timeout arm)")
 			default:
 				// a processor: every removal is preceded by the notification on the same path
@@ -613,4 +632,37 @@ func paramByIndex(f *core.FuncInfo, arg ast.Expr, info *types.Info) types.Object
 		}
 	}
 	return nil
+}
+
+// onlyCalledFrom: f has callers, and every one of them is target or (up to depth levels) a function only called
+// from target.
+func onlyCalledFrom(w *core.World, f, target *core.FuncInfo, depth int) bool {
+	if depth < 0 {
+		return false
+	}
+	n := 0
+	for _, g := range w.SortedFuncs() {
+		if w.IsTestFile(g.Decl.Pos()) || g.Decl.Body == nil {
+			continue
+		}
+		calls := false
+		for _, cs := range w.Calls(g) {
+			if cs.Static == f.Obj {
+				calls = true
+			}
+			for _, c := range cs.Callees {
+				if c == f.Obj {
+					calls = true
+				}
+			}
+		}
+		if !calls {
+			continue
+		}
+		n++
+		if g != target && !onlyCalledFrom(w, g, target, depth-1) {
+			return false
+		}
+	}
+	return n > 0
 }
